@@ -273,6 +273,17 @@ theorem fresh_insert_live {st : State} (hF : Fresh st) {id : Nat} {r : Rec} (nr 
   · subst e; exact hF x r h
   · simp only [e, if_false] at hx; exact hF x rx hx
 
+theorem fresh_delete (c : Cfg) {st : State} (hF : Fresh st) (id : Nat) : Fresh (delete c st id).1 := by
+  simp only [delete]
+  cases h : AMap.lookup st.prim id with
+  | none => exact hF
+  | some r =>
+    intro x rx hx
+    simp only [lookup_erase] at hx
+    by_cases e : x = id
+    · simp [e] at hx
+    · simp only [e, if_false] at hx; exact hF x rx hx
+
 theorem fresh_step (c : Cfg) {st : State} (hF : Fresh st) (op : Op) : Fresh (step c st op).1 := by
   unfold step
   by_cases ha : c.accepts op = true
@@ -303,15 +314,24 @@ theorem fresh_step (c : Cfg) {st : State} (hF : Fresh st) (op : Op) : Fresh (ste
         | false => exact fresh_insert_live hF (r.set false (some v)) h (fun x => by simp [lookup_insert])
         | true => exact fresh_insert_live hF (r.set true (some v)) h (fun x => by simp [lookup_insert])
     | delete id =>
-      simp only [delete]
-      cases h : AMap.lookup st.prim id with
-      | none => exact hF
-      | some r =>
-        intro x rx hx
-        simp only [lookup_erase] at hx
-        by_cases e : x = id
-        · simp [e] at hx
-        · simp only [e, if_false] at hx; exact hF x rx hx
+      simp only
+      split
+      · exact hF
+      · exact fresh_delete c hF id
+    | tpark id =>
+      simp only [tpark]
+      split
+      · exact hF
+      · split
+        · exact hF
+        · split
+          · exact fresh_delete c hF id
+          · exact hF
+    | tresume id =>
+      simp only [tresume]
+      split
+      · exact fresh_delete c (st := { st with term := st.term.filter (· ≠ id) }) hF id
+      · exact hF
     | get id => exact hF
     | byKey slot v => exact hF
     | list => exact hF
@@ -541,6 +561,28 @@ theorem kinv_delete_op {c : Cfg} {s : Bool} {v : Nat} {st : State} (hK : KInv s 
     · intro x; simp [lookup_erase]
     · cases s <;> rfl
 
+/-- the `terminating` marks are invisible to the tables -/
+theorem kinv_term {s : Bool} {v : Nat} {st : State} (hK : KInv s v st) (t : List Nat) :
+    KInv s v { st with term := t } := ⟨hK.fwd, hK.bwd⟩
+
+theorem kinv_tpark {c : Cfg} {s : Bool} {v : Nat} {st : State} (hK : KInv s v st) (id : Nat) :
+    KInv s v (tpark c st id).1 := by
+  simp only [tpark]
+  split
+  · exact hK
+  · split
+    · exact hK
+    · split
+      · exact kinv_delete_op hK id
+      · exact kinv_term hK _
+
+theorem kinv_tresume {c : Cfg} {s : Bool} {v : Nat} {st : State} (hK : KInv s v st) (id : Nat) :
+    KInv s v (tresume c st id).1 := by
+  simp only [tresume]
+  split
+  · exact kinv_delete_op (kinv_term hK _) id
+  · exact hK
+
 theorem kinv_step {c : Cfg} {s : Bool} {v : Nat} {st : State} (hK : KInv s v st) (op : Op)
     (h1 : (noEffect c st op || opOnePerKeyAt st s v op) = true)
     (h2 : (noEffect c st op || opNoRekeyAt c st s v op) = true) : KInv s v (step c st op).1 := by
@@ -559,7 +601,13 @@ theorem kinv_step {c : Cfg} {s : Bool} {v : Nat} {st : State} (hK : KInv s v st)
         | false => rw [create_state hb]; exact kinv_putRaw hK _ h1 h2
       | update id k0 k1 => exact kinv_update hK id k0 k1 h1 h2
       | setKey id slot w => exact kinv_setKey (c := c) hK id slot w h1 h2
-      | delete id => exact kinv_delete_op hK id
+      | delete id =>
+        simp only
+        split
+        · exact hK
+        · exact kinv_delete_op hK id
+      | tpark id => exact kinv_tpark hK id
+      | tresume id => exact kinv_tresume hK id
       | get id => exact hK
       | byKey slot w => exact hK
       | list => exact hK
@@ -675,7 +723,13 @@ theorem step_submgr_kinv0 {st : State} (hI : ∀ v, KInv false v st) (hF : Fresh
             exact hk
           · intro hk id' r' hp hkr
             exact (hI v).unique h hk hp hkr
-    | delete id => exact kinv_delete_op (hI v) id
+    | delete id =>
+      simp only
+      split
+      · exact hI v
+      · exact kinv_delete_op (hI v) id
+    | tpark id => exact kinv_tpark (hI v) id
+    | tresume id => exact kinv_tresume (hI v) id
     | get id => exact hI v
     | byKey slot w => exact hI v
     | list => exact hI v
@@ -688,6 +742,103 @@ theorem run_submgr_kinv0 {st : State} (hI : ∀ v, KInv false v st) (hF : Fresh 
   induction ops generalizing st with
   | nil => exact hI
   | cons op rest ih => exact ih (fun v => step_submgr_kinv0 hI hF op v) (fresh_step submgr hF op)
+
+/-- every parked TerminateSession belongs to a live session -/
+def TermLive (st : State) : Prop := ∀ id, id ∈ st.term → ∃ r, AMap.lookup st.prim id = some r
+
+theorem termLive_delete {c : Cfg} {st : State} (hT : TermLive st) (id : Nat) (hid : id ∉ st.term) :
+    TermLive (delete c st id).1 := by
+  unfold delete
+  cases h : AMap.lookup st.prim id with
+  | none => exact hT
+  | some r =>
+    intro x hx
+    obtain ⟨rx, hrx⟩ := hT x hx
+    have : x ≠ id := by intro e; subst e; exact hid hx
+    exact ⟨rx, by simp [lookup_erase, this, hrx]⟩
+
+theorem delete_term (c : Cfg) (st : State) (id : Nat) : (delete c st id).1.term = st.term := by
+  unfold delete; split <;> rfl
+
+theorem step_submgr_termLive {st : State} (hT : TermLive st) (op : Op) : TermLive (step submgr st op).1 := by
+  unfold step
+  by_cases ha : submgr.accepts op = true
+  · simp only [ha, Bool.not_true, Bool.false_eq_true, if_false]
+    cases op with
+    | create id? k0 k1 =>
+      simp only [create]
+      split
+      · exact hT
+      · intro x hx
+        obtain ⟨rx, hrx⟩ := hT x hx
+        simp only [putRaw, lookup_insert]
+        split
+        · exact ⟨_, rfl⟩
+        · exact ⟨rx, hrx⟩
+    | update id k0 k1 => simp [submgr, submgrAccepts] at ha
+    | setKey id slot w =>
+      simp only [setKey]
+      cases h : AMap.lookup st.prim id with
+      | none => exact hT
+      | some r =>
+        cases slot with
+        | false => simp [submgr, submgrAccepts] at ha
+        | true =>
+          intro x hx
+          obtain ⟨rx, hrx⟩ := hT x hx
+          simp only [lookup_insert]
+          split
+          · exact ⟨_, rfl⟩
+          · exact ⟨rx, hrx⟩
+    | delete id =>
+      simp only
+      split
+      · exact hT
+      · rename_i hid; exact termLive_delete hT id hid
+    | tpark id =>
+      simp only [tpark]
+      split
+      · exact hT
+      · rename_i hid
+        cases h : AMap.lookup st.prim id with
+        | none => exact hT
+        | some r =>
+          simp only
+          split
+          · exact termLive_delete hT id hid
+          · intro x hx
+            simp only [List.mem_cons] at hx
+            rcases hx with hx | hx
+            · subst hx; exact ⟨r, h⟩
+            · exact hT x hx
+    | tresume id =>
+      simp only [tresume]
+      split
+      · apply termLive_delete
+        · intro x hx
+          simp only [List.mem_filter] at hx
+          exact hT x hx.1
+        · simp
+      · exact hT
+    | get id => exact hT
+    | byKey slot w => exact hT
+    | list => exact hT
+    | load l => simp [submgr, submgrAccepts] at ha
+  · simp only [ha, Bool.not_false, if_true]
+    exact hT
+
+theorem run_submgr_termLive {st : State} (hT : TermLive st) (ops : List Op) : TermLive (run submgr st ops) := by
+  induction ops generalizing st with
+  | nil => exact hT
+  | cons op rest ih => exact ih (step_submgr_termLive hT op)
+
+theorem submgr_create_indexed {st : State} {m id : Nat} (h : AMap.lookup st.i0 m = some id) :
+    step submgr st (.create none (some m) none) = (st, .conflict) := by
+  simp [step, submgr, submgrAccepts, create, dupBlocks, h]
+
+theorem submgr_step_tresume {st : State} {k : Nat} (hk : k ∈ st.term) :
+    (step submgr st (.tresume k)).1 = (delete submgr { st with term := st.term.filter (· ≠ k) } k).1 := by
+  simp [step, submgr, submgrAccepts, tresume, hk]
 
 /-! ### MemoryAllocationStore: every live allocation is found by its address — on every history whose LOADS are
     address-injective (SaveAllocation needs no hypothesis, UnmarshalJSON has no uniqueness check) -/
@@ -780,7 +931,12 @@ theorem step_memstore_fwd {st : State} (hI : FwdS true st) (op : Op)
                 · simp only [hv, if_false]; exact h1
     | update id k0 k1 => simp [memstore, memAccepts] at ha
     | setKey id slot v => simp [memstore, memAccepts] at ha
+    | tpark id => simp [memstore, memAccepts] at ha
+    | tresume id => simp [memstore, memAccepts] at ha
     | delete id =>
+      simp only
+      split
+      · exact hI
       simp only [delete]
       cases h : AMap.lookup st.prim id with
       | none => exact hI
@@ -823,5 +979,7 @@ theorem run_memstore_fwd {st : State} (hI : FwdS true st) (ops : List Op) (hl : 
     | get a => exact ih (step_memstore_fwd hI _ (fun l' e => by cases e)) hl
     | byKey a b => exact ih (step_memstore_fwd hI _ (fun l' e => by cases e)) hl
     | list => exact ih (step_memstore_fwd hI _ (fun l' e => by cases e)) hl
+    | tpark a => exact ih (step_memstore_fwd hI _ (fun l' e => by cases e)) hl
+    | tresume a => exact ih (step_memstore_fwd hI _ (fun l' e => by cases e)) hl
 
 end Bng.Index
